@@ -217,6 +217,8 @@ type zzStep struct {
 	reqNames []string
 	// reqKeys[k] is the requirement name (map key) used in round k; defaults to "extra"
 	reqKeys []string
+	// reqByLabel: the varying value is a match label instead of the match name
+	reqByLabel bool
 	// context value the step writes
 	ctxValue string
 	// explicit metadata.name the function gives desired resource i ("" = none)
@@ -321,9 +323,11 @@ func (r *zzRunner) RunFunction(_ context.Context, name string, req *fnv1.RunFunc
 				key = st.reqKeys[k]
 			}
 		}
-		rsp.Requirements = &fnv1.Requirements{ExtraResources: map[string]*fnv1.ResourceSelector{
-			key: {ApiVersion: "example.org/v1", Kind: "Extra", Match: &fnv1.ResourceSelector_MatchName{MatchName: n}},
-		}}
+		sel := &fnv1.ResourceSelector{ApiVersion: "example.org/v1", Kind: "Extra", Match: &fnv1.ResourceSelector_MatchName{MatchName: n}}
+		if st.reqByLabel {
+			sel.Match = &fnv1.ResourceSelector_MatchLabels{MatchLabels: &fnv1.MatchLabels{Labels: map[string]string{"round": n}}}
+		}
+		rsp.Requirements = &fnv1.Requirements{ExtraResources: map[string]*fnv1.ResourceSelector{key: sel}}
 	}
 	if st.fatal {
 		rsp.Results = append(rsp.Results, &fnv1.Result{Severity: fnv1.Severity_SEVERITY_FATAL, Message: "fatal " + name})
